@@ -9,6 +9,7 @@ from ..runner import Scn, verdict, sha, Vacuous
 from . import c03
 
 ID = 'C06'
+DECORATE = True
 LEVEL = 'model_checking'
 RULE = ('E1 enumeration of LAT=1 decks: unit cell 1D/2D/3D, orthogonal or skew, by planes or by -rpp, '
         'listing order inside each pair and order of the pairs, index ranges incl. negative / degenerate / '
